@@ -7,7 +7,7 @@ for ID in $IDS; do
   PROP=${ID%%-*}
   WT=/tmp/mx-$ID
   git -C /repo worktree add -q --detach $WT HEAD || continue
-  if git -C $WT apply /verif/seeded/$ID/patch.diff; then
+  if git -C $WT apply /verif/seeded/$ID/patch.diff 2>/dev/null || git -C $WT apply -3 /verif/seeded/$ID/patch.diff; then
     VERIF_REPO=$WT $BIN $PROP $TIER > /tmp/mx-$ID.log 2>&1; RC=$?
     echo "$ID $PROP $TIER exit=$RC viol=$(grep -c '^VIOLATION' /tmp/mx-$ID.log) :: $(grep -E '^violation class|^HARNESS' /tmp/mx-$ID.log | head -1 | cut -c1-260)" >> $OUT
   else
